@@ -85,6 +85,7 @@ type Client struct {
 	LoseAcks    bool // additionally offer "applied, but the reply is lost"
 	BreakWatch  bool // offer "watch stream breaks" at every delivery step
 	NoPoints    bool
+	ReplyPoints bool // a second scheduling point between a Txn's server-side effect and its reply
 	Unavailable bool // all operations fail (etcd unreachable from this process)
 	C           *clientv3.Client
 	mu          sync.Mutex
@@ -402,7 +403,18 @@ func (k *kvClient) DeleteRange(ctx context.Context, in *pb.DeleteRangeRequest, _
 	return resp, nil
 }
 
-func (k *kvClient) Txn(ctx context.Context, in *pb.TxnRequest, _ ...grpc.CallOption) (*pb.TxnResponse, error) {
+// Txn applies the transaction at the server and, with ReplyPoints, takes one more scheduling point before
+// the reply reaches the caller: other processes (and lease expiry) can act between the server-side effect
+// and the moment the caller sees the answer.
+func (k *kvClient) Txn(ctx context.Context, in *pb.TxnRequest, o ...grpc.CallOption) (*pb.TxnResponse, error) {
+	resp, err := k.txn(ctx, in)
+	if k.c.ReplyPoints && !k.c.NoPoints {
+		sched.Env("etcd." + k.c.Who + ".Txn.reply")
+	}
+	return resp, err
+}
+
+func (k *kvClient) txn(ctx context.Context, in *pb.TxnRequest) (*pb.TxnResponse, error) {
 	lost, err := k.c.pre("Txn")
 	if err != nil {
 		return nil, err
